@@ -39,17 +39,26 @@ def to_ds(spec):
     return svc.simple_ds(**spec)
 
 
-def scp_case(value, lazy=False):
+def scp_case(value, lazy=False, fail_after=None):
     service_name, sop, ts_i, max_pdu, query, matches, msg_id, pc_id = value
+    if fail_after is not None:
+        matches = matches[:fail_after]
     from pynetdicom2 import sopclass, statuses, dimsemessages
     case = {'side': 'scp', 'service': service_name, 'sop': sop, 'ts': ts_i, 'max_pdu': max_pdu, 'query': query,
-            'matches': matches, 'msg_id': msg_id, 'pc_id': pc_id, 'lazy': lazy}
+            'matches': matches, 'msg_id': msg_id, 'pc_id': pc_id, 'lazy': lazy, 'fail_after': fail_after}
     ts = TSS[ts_i]
     seen = []
 
     def on_find(ctx, ds):
         seen.append((tuple(ctx), ds))
-        return iter([(to_ds(m), statuses.Status(code, dimsemessages.CFindRSPMessage)) for m, code in matches])
+
+        def gen():
+            for m, code in matches:
+                yield to_ds(m), statuses.Status(code, dimsemessages.CFindRSPMessage)
+            if fail_after is not None:
+                from pynetdicom2 import exceptions
+                raise exceptions.EventHandlingError('handler fails after %d matches' % len(matches))
+        return gen()
     ae = svc.make_server({'on_receive_find': on_find}, [alias(getattr(sopclass, service_name), [sop])],
                          ts=[ts], max_pdu=max_pdu)
     req = {0x0002: sop, 0x0100: 0x0020, 0x0110: msg_id, 0x0700: 0}
@@ -77,7 +86,11 @@ def scp_case(value, lazy=False):
         if max_pdu and max(r['pdu_lengths']) > max_pdu:
             raise Violation('%s:scp:too-long' % PROP, 'P-DATA-TF of %d bytes, limit %d' % (max(r['pdu_lengths']), max_pdu), case)
     last = rsps[-1]
-    svc.check_response(PROP, req, last, pc_id, lambda s: isinstance(s, int) and s not in (0xFF00, 0xFF01), case, what='final: ')
+    if fail_after is None:
+        svc.check_response(PROP, req, last, pc_id, lambda s: isinstance(s, int) and s not in (0xFF00, 0xFF01), case, what='final: ')
+    else:
+        from .c17 import is_failure_for
+        svc.check_response(PROP, req, last, pc_id, is_failure_for(0x8020), case, what='final after handler failure: ')
     if last['data'] is not None or last['fields'].get(0x0800) != refcmd.NO_DATASET:
         raise Violation('%s:scp:final-dataset' % PROP, 'final response carries a data set / data-set flag %r'
                         % (last['fields'].get(0x0800),), case)
@@ -188,6 +201,8 @@ def shard(ctx, job):
     def scp(value):
         multi = scp_case(value)
         scp_case(value, lazy=True)        # same case with a slow provider thread (messages encoded late)
+        if value[5]:
+            scp_case(value, lazy=len(value[5]) % 2 == 0, fail_after=len(value[5]) // 2)   # handler fails mid-stream
         ctx.case(('scp', value), nontrivial(value[5]) or multi > 0,
                  labels=['scp', 'svc=' + value[0], 'matches=%d' % len(value[5]), 'multi-fragment' if multi else 'single'],
                  sample={'side': 'scp', 'service': value[0], 'ts': TSS[value[2]], 'max_pdu': value[3], 'matches': value[5][:3]})
@@ -207,7 +222,7 @@ def run(ctx):
                 '(odd-length values, long descriptions), 3 transfer syntaxes, maximum PDU lengths down to 32 bytes; '
                 'provider side through qr_find_scp / modality_work_list_scp (wire read by the reference codecs), user '
                 'side through qr_find_scu / modality_work_list_scu / the c_find() wrapper against a scripted peer with '
-                'final status success/failure/cancel, counting every receive() call; '
+                'final status success/failure/cancel, counting every receive() call; provider handler failing after k matches; '
                 'non-trivial = >=2 matches, mixed pending codes or a multi-fragment response')
     ctx.assumptions = ['matches carry only pending statuses (a non-pending status supplied by the handler is outside the statement)',
                        'loopback composition of both sides is exercised by C20/C15 style checks, not here']
@@ -219,6 +234,6 @@ def replay(case):
     warnings.simplefilter('ignore')
     m = [(a, b) for a, b in case['matches']]
     if case['side'] == 'scp':
-        scp_case((case['service'], case['sop'], case['ts'], case['max_pdu'], case['query'], m, case['msg_id'], case['pc_id']), case.get('lazy', False))
+        scp_case((case['service'], case['sop'], case['ts'], case['max_pdu'], case['query'], m, case['msg_id'], case['pc_id']), case.get('lazy', False), case.get('fail_after'))
     else:
         scu_case((case['service'], case['sop'], case['ts'], case['query'], m, case['final'], case['msg_id'], case['via']))
